@@ -57,8 +57,31 @@ def nextChannel (n : Nat) : Nat × Nat :=
 /-- `send_channel_data`: ChannelData message (RFC 5766 §11.4) -/
 def channelData (channel : Nat) (data : Bytes) : Bytes := be16 channel ++ be16 data.length ++ data
 
-/-- `TurnClient::send` over TCP / `frame_stun_for_tcp`: RFC 4571 two-byte length prefix -/
-def tcpFrame (data : Bytes) : Bytes := be16 data.length ++ data
+/-- first two bits `01`: a ChannelData message (`b & 0xC0 == 0x40`) -/
+def isChannelByte (b : UInt8) : Bool := b.toNat / 64 = 1
+
+/-- `TurnClient::send` over TCP (RFC 5766 §2.1 / §11.5): no extra framing — a STUN message goes out as it
+is, a ChannelData message is padded with zeros to a multiple of four bytes -/
+def tcpWire (data : Bytes) : Bytes :=
+  match data with
+  | b :: _ => if isChannelByte b then data ++ zeros (pad4 data.length) else data
+  | [] => data
+
+/-- `TurnClient::recv` over TCP: the next message of the byte stream and the rest of the stream
+(`none`: more bytes are needed / read error) -/
+def tcpNext (stream : Bytes) : Option (Bytes × Bytes) :=
+  match stream with
+  | b0 :: b1 :: l0 :: l1 :: rest =>
+    if isChannelByte b0 then
+      if rest.length < rd16 l0 l1 + pad4 (rd16 l0 l1) then none
+      else some (b0 :: b1 :: l0 :: l1 :: rest.take (rd16 l0 l1), rest.drop (rd16 l0 l1 + pad4 (rd16 l0 l1)))
+    else
+      if rest.length < 16 + rd16 l0 l1 then none
+      else some (b0 :: b1 :: l0 :: l1 :: rest.take (16 + rd16 l0 l1), rest.drop (16 + rd16 l0 l1))
+  | _ => none
+
+/-- ICE-TCP candidates (RFC 6544 §10.1) do use RFC 4571 framing: `frame_stun_for_tcp` -/
+def rfc4571Frame (data : Bytes) : Bytes := be16 data.length ++ data
 
 /-- what `handle_turn_packet` does with a datagram from the TURN server -/
 inductive Rx where
